@@ -303,7 +303,7 @@ func runC05(c *Ctx) {
 		"Not decided: that the mutators jointly preserve the invariant over all histories (an inductive argument), quiescent-point claims."
 	r.Rule("who-writes", "table and link fields are written only by the table mutators", 9)
 	r.Rule("locked", "table mutations hold the session mutex for writing", 8)
-	r.Rule("pairing", "creation and deletion keep index, link and list together", 15)
+	r.Rule("pairing", "creation and deletion keep index, link and list together", 16)
 	r.Rule("online", "MAC entry online flag follows its hosts", 2)
 	runC05Holders(c)
 	// unlink removes the host found from the MAC entry's list and no other (a removal that drops the hosts after it
@@ -464,6 +464,31 @@ func runC05(c *Ctx) {
 				r.Add(core.Obligation{Rule: "locked", Key: lk, Func: core.FuncName(fn), Pos: c.P.Pos(core.PosOf(i)), Status: ls,
 					Basis: "Session.mutex held for writing (directly or by every caller)", Detail: what + " without the session mutex held for writing"})
 			}
+		})
+	}
+	// check and act in one critical section: the lookup that decides "no such host, create one" (or "another MAC holds the
+	// address, replace it") is made with the session mutex held for writing, like the insertion. A decision carried over
+	// from the read-locked fast path lets two goroutines both miss and both insert: the second overwrites the index slot
+	// while both hosts stay in the MAC entry's list.
+	if fn := c.A.Method("", "Session", "findOrCreateHostWithLock"); fn != nil {
+		fi := an.Info[fn]
+		core.EachInstr(fn, func(i ssa.Instruction) {
+			mu, ok := i.(*ssa.MapUpdate)
+			if !ok || !strings.HasSuffix(norm(mu.Map), ".HostTable.Table") {
+				return
+			}
+			st := core.Violated
+			core.EachInstr(fn, func(j ssa.Instruction) {
+				lk, isL := j.(*ssa.Lookup)
+				if !isL || norm(lk.X) != norm(mu.Map) || norm(lk.Index) != norm(mu.Key) {
+					return
+				}
+				if fi != nil && fi.MustIn[j][locks.Held{Class: "Session.mutex", Mode: "W"}] && j.Block().Dominates(i.Block()) {
+					st = core.Proved
+				}
+			})
+			r.Add(core.Obligation{Rule: "pairing", Key: "pairing findOrCreateHostWithLock looks the address up again under the write lock", Func: core.FuncName(fn), Pos: c.P.Pos(core.PosOf(i)), Status: st,
+				Basis: "a lookup of the same key with Session.mutex held for writing dominates the insertion", Detail: "the host is inserted on the strength of a lookup made before the write lock was taken: two goroutines that both miss the same new address both insert, the index keeps the second host and the MAC entry lists both"})
 		})
 	}
 	// pairing: creation
